@@ -238,7 +238,7 @@ def run(case):
                         q = Angle(q)
                     elif q.unit.physical_type == "length" and np.all(q.value > 0):
                         q = SpectralCoord(q)
-                        if not case["fam"].startswith("probe") and case["wseed"] % 2 and case["which"] == "wcs":
+                        if case["fam"].startswith("fits") and case["wseed"] % 2 and case["which"] == "wcs":
                             q = q.to(u.THz)        # the same wavelength given as a frequency (a SpectralCoord converts itself)
                 pt.append(q if as_quantity else float(q.to_value(ulist[i] if alt_ulist else un)))
             pts.append(pt)
